@@ -1,7 +1,57 @@
-import PvlModel.Model.Spec
+import PvlModel.Lemmas.Heap
 /-!
-# C11
-(theorems are added below as they are proved; see DESIGN §5)
+# C11 — copies of a container are equal, independent and leave the original intact
+
+Aliasing is a question about objects, so this property has its own small model (`Model/Heap.lean`): a
+container object refers to its private item list and to one value list per key; methods change lists in
+place or rebind a reference to a freshly built list; `copy()` builds every list anew from the pairs.
+
+Theorems (for every heap, every container, every history of `append` / `__setitem__` / `__delitem__` /
+`pop()` on either side, unbounded):
+
+* `C11_copy_equal_intact`: the copy shows the same pairs, and making it leaves the original's pair list
+  and every one of its value lists as they were;
+* `C11_independent`: no history of methods on the copy changes anything observable of the original, and
+  none on the original changes the copy — because the two share no list (`Sep`) and every method is
+  *local* (writes only to lists its receiver owns, or to fresh ones; `step_local`);
+* `C11_shared_values_leak`: the broken copy that re-uses the value lists (seeded change S-C11) does leak.
+
+Tie to the code (`vlib/props/c11.py`): for each of the four copy mechanisms the real objects are
+inspected for exactly the model's separation — the copy's `__items` list and every value list must be a
+different object from the original's (at every level for the deep mechanisms) — and the behavioural
+independence is exercised by random mutations on either side.  The deep mechanisms' nested levels repeat
+the argument per level; the model's values are opaque.
 -/
-namespace Pvl
-end Pvl
+namespace Pvl.Heap
+
+/-- **C11, equal and intact** -/
+theorem C11_copy_equal_intact (h : Heap) (c : Cont) (hc : FpOK h c) :
+    (view (copy h c).1 (copy h c).2).1 = (view h c).1 ∧ view (copy h c).1 c = view h c :=
+  ⟨(copy_spec h c hc).1, (copy_spec h c hc).2.1⟩
+
+/-- **C11, independent**: any history on the copy leaves the original as it was, and any history on the
+    original leaves the copy as it was -/
+theorem C11_independent (h : Heap) (c : Cont) (hc : FpOK h c) (ops : List Op) :
+    view (run (copy h c).1 (copy h c).2 ops).1 c = view h c ∧
+    view (run (copy h c).1 c ops).1 (copy h c).2 = view (copy h c).1 (copy h c).2 := by
+  obtain ⟨_, hv, hsep, hok', hok⟩ := copy_spec h c hc
+  refine ⟨?_, ?_⟩
+  · rw [run_frame ops _ _ c hok' hok hsep, hv]
+  · exact run_frame ops _ c _ hok hok' ⟨fun e => hsep.1 e.symm, fun p hp q hq e => hsep.2 q hq p hp e.symm⟩
+
+/-- a heap with one container holding the pair (1, 5) -/
+def h0 : Heap := ⟨fun i => if i = 0 then [(1, 5)] else [], 1, fun i => if i = 0 then [5] else [], 1⟩
+def c0 : Cont := ⟨0, [(1, 0)]⟩
+
+/-- **the seeded defect leaks**: a copy that shares the value lists lets `append` on the copy show
+    through in the original's values for that key -/
+theorem C11_shared_values_leak :
+    let (h1, c1) := copySharingValues h0 c0
+    view (append h1 c1 1 6).1 c0 ≠ view h0 c0 := by decide
+
+/-- … while the real `copy()` does not, on the same example (an instance of `C11_independent`) -/
+example : let (h1, c1) := copy h0 c0; view (append h1 c1 1 6).1 c0 = view h0 c0 := by decide
+
+example : FpOK h0 c0 := by simp [FpOK, h0, c0]
+
+end Pvl.Heap
